@@ -1296,3 +1296,227 @@ Proof.
           destruct (jmod lenient z (s2 :: r') (set_here lenient x)); [discriminate | contradiction]. }
     exact (E _ _ _ _ J (not_root_nonempty _ R) M).
 Qed.
+
+(* ------------------------------------------------------------------ swap: the documented meaning *)
+Lemma lookup_pos_nth : forall s ms i, lookup_pos s ms = Some i -> lookup s ms = nth_error (map snd ms) i.
+Proof.
+  intros s. induction ms as [|[k v] r IH]; intros i H; [discriminate|].
+  cbn [lookup_pos lookup] in *. destruct (bytes_eqb k s).
+  - inversion H; subst. reflexivity.
+  - destruct (lookup_pos s r) as [j|]; [|discriminate]. inversion H; subst. cbn [map nth_error]. apply IH. reflexivity.
+Qed.
+Lemma lookup_pos_none : forall s ms, lookup_pos s ms = None -> lookup s ms = None.
+Proof.
+  intros s. induction ms as [|[k v] r IH]; intro H; [reflexivity|].
+  cbn [lookup_pos lookup] in *. destruct (bytes_eqb k s); [discriminate|].
+  destruct (lookup_pos s r); [discriminate|]. apply IH. reflexivity.
+Qed.
+
+Lemma jget_step : forall c v s r, jget c v (s :: r) =
+  match jstep c v s with Some i => match nth_error (jkids v) i with Some x => jget c x r | None => None end | None => None end.
+Proof.
+  intros c v s r. rewrite jget_cons. destruct v as [| | | | |l|ms]; try reflexivity.
+  - cbn [jstep jkids]. destruct (lookup_pos s ms) as [i|] eqn:L.
+    + rewrite (lookup_pos_nth s ms i L). reflexivity.
+    + rewrite (lookup_pos_none s ms L). reflexivity.
+Qed.
+
+Lemma jlocate_get : forall c p v pos, jlocate c v p = Some pos -> jget c v p = jget_at v pos.
+Proof.
+  intros c. induction p as [|s r IH]; intros v pos H.
+  - simpl in H. inversion H. reflexivity.
+  - rewrite jget_step. cbn [jlocate] in H. destruct (jstep c v s) as [i|]; [|discriminate].
+    destruct (nth_error (jkids v) i) as [x|] eqn:N; [|discriminate].
+    destruct (jlocate c x r) as [l|] eqn:L; [|discriminate]. inversion H; subst. cbn [jget_at]. rewrite N. apply IH. exact L.
+Qed.
+
+Lemma jstep_mono : forall v s i, jstep strict v s = Some i -> jstep lenient v s = Some i.
+Proof. intros v s i H. destruct v; try discriminate; [apply aidx_mono; exact H | exact H]. Qed.
+
+Lemma jlocate_mono : forall p v pos, jlocate strict v p = Some pos -> jlocate lenient v p = Some pos.
+Proof.
+  induction p as [|s r IH]; intros v pos H; [exact H|].
+  cbn [jlocate] in *. destruct (jstep strict v s) as [i|] eqn:S; [|discriminate]. rewrite (jstep_mono v s i S).
+  destruct (nth_error (jkids v) i) as [x|]; [|discriminate].
+  destruct (jlocate strict x r) as [l|] eqn:L; [|discriminate]. rewrite (IH x l L). exact H.
+Qed.
+
+Lemma jget_at_app : forall p q v, jget_at v (p ++ q) = match jget_at v p with Some x => jget_at x q | None => None end.
+Proof.
+  induction p as [|i r IH]; intros q v; [reflexivity|].
+  cbn [app jget_at]. destruct (nth_error (jkids v) i) as [c|]; [apply IH | reflexivity].
+Qed.
+
+Lemma jlocate_last : forall c p v pc, p <> [] -> jlocate c v p = Some pc ->
+  exists pp i parent, jlocate c v (removelast p) = Some pp /\ pc = pp ++ [i] /\ jget_at v pp = Some parent /\
+                      jstep c parent (last p []) = Some i.
+Proof.
+  intros c. induction p as [|s r IH]; intros v pc NE H; [contradiction|].
+  cbn [jlocate] in H. destruct (jstep c v s) as [i|] eqn:S; [|discriminate].
+  destruct (nth_error (jkids v) i) as [x|] eqn:N; [|discriminate].
+  destruct (jlocate c x r) as [l|] eqn:L; [|discriminate]. inversion H; subst.
+  destruct r as [|s2 r'].
+  - simpl in L. inversion L; subst. exists [], i, v. repeat split; auto.
+  - destruct (IH x l ltac:(discriminate) L) as [pp [j [parent [A [B [C D]]]]]].
+    exists (i :: pp), j, parent. rewrite removelast_cons2. cbn [jlocate]. rewrite S, N, A. subst l.
+    repeat split; auto. cbn [jget_at]. rewrite N. exact C.
+Qed.
+
+Lemma strict_step_swap_kid : forall parent s i, jstep strict parent s = Some i -> swap_kid lenient parent s = Some i.
+Proof.
+  intros parent s i H. destruct parent as [| | | | |l|ms]; try discriminate; [|exact H].
+  cbn [jstep] in H. cbn [swap_kid]. unfold aidx in H. cbn [c_lenient strict c_look] in H.
+  destruct (s_is_dash s) eqn:D; [discriminate|].
+  destruct (strict_idx s) as [z|] eqn:SI; [|discriminate].
+  destruct (strict_idx_atoi s z SI) as [A [B _]].
+  cbn [c_ins lenient]. rewrite A. rewrite sw32_id by (change (2 ^ 31) with 2147483648; lia). exact H.
+Qed.
+
+Theorem swap_documented : forall dv f path r, ext_swap strict dv f path = Some r -> lib_swap lenient dv f path = Some r.
+Proof.
+  intros dv f path r H. unfold ext_swap in H.
+  destruct (jlocate strict dv f) as [pf|] eqn:LF; [|discriminate].
+  destruct (jlocate strict dv path) as [pc|] eqn:LP; [|discriminate].
+  destruct (np_prefix pf pc || np_prefix pc pf) eqn:NP; [discriminate|].
+  apply orb_false_iff in NP. destruct NP as [N1 N2].
+  destruct (jget_at dv pf) as [a|] eqn:GA; [|discriminate]. destruct (jget_at dv pc) as [b|] eqn:GB; [|discriminate].
+  assert (NE : path <> []).
+  { intro E. subst path. simpl in LP. inversion LP; subst pc. simpl in N2. discriminate. }
+  destruct (jlocate_last strict path dv pc NE LP) as [pp [i [parent [A [B [C D]]]]]].
+  unfold lib_swap. rewrite (jlocate_mono _ _ _ LF). rewrite (jlocate_get lenient f dv pf (jlocate_mono _ _ _ LF)), GA.
+  rewrite (jlocate_mono _ _ _ A), C, (strict_step_swap_kid parent _ i D). cbv zeta. rewrite <- B, GB, N1, N2. cbn [andb]. exact H.
+Qed.
+
+Lemma jkids_set_kid : forall v i y x, nth_error (jkids v) i = Some y ->
+  jkids (jset_kid v i x) = firstn i (jkids v) ++ x :: skipn (S i) (jkids v).
+Proof.
+  intros v i y x N. destruct v as [| | | | |l|ms]; try (destruct i; discriminate).
+  - reflexivity.
+  - cbn [jkids jset_kid] in *. rewrite nth_error_map in N. destruct (nth_error ms i) as [[k y0]|] eqn:M; [|discriminate].
+    rewrite !map_app. cbn [map snd app]. rewrite firstn_map, skipn_map. reflexivity.
+Qed.
+
+Lemma nth_mid_same : forall (A : Type) (l : list A) i c x, nth_error l i = Some c ->
+  nth_error (firstn i l ++ x :: skipn (S i) l) i = Some x.
+Proof.
+  intros A l i c x H. assert (L : (i < length l)%nat) by (apply nth_error_Some; congruence).
+  rewrite nth_error_app2; rewrite firstn_length_le by lia; [|lia]. rewrite Nat.sub_diag. reflexivity.
+Qed.
+
+Lemma jget_at_set_same : forall pos v x v', jset_at v pos x = Some v' -> jget_at v' pos = Some x.
+Proof.
+  induction pos as [|i r IH]; intros v x v' H.
+  - simpl in H. inversion H. reflexivity.
+  - cbn [jset_at] in H. destruct (nth_error (jkids v) i) as [y|] eqn:N; [|discriminate].
+    destruct (jset_at y r x) as [y'|] eqn:S; [|discriminate]. inversion H; subst. cbn [jget_at].
+    rewrite (jkids_set_kid v i y y' N), (nth_mid_same _ _ _ _ _ N). apply (IH y x y' S).
+Qed.
+
+Lemma jget_at_set_other : forall pf v x v', jset_at v pf x = Some v' ->
+  forall pc, np_prefix pf pc = false -> np_prefix pc pf = false -> jget_at v' pc = jget_at v pc.
+Proof.
+  induction pf as [|i r IH]; intros v x v' H pc P1 P2; [discriminate|].
+  cbn [jset_at] in H. destruct (nth_error (jkids v) i) as [y|] eqn:N; [|discriminate].
+  destruct (jset_at y r x) as [y'|] eqn:S; [|discriminate]. inversion H; subst.
+  destruct pc as [|j q]; [discriminate|]. cbn [jget_at]. rewrite (jkids_set_kid v i y y' N).
+  destruct (Nat.eq_dec j i) as [E|NE].
+  - subst j. rewrite (nth_mid_same _ _ _ _ _ N), N. cbn [np_prefix] in P1, P2. rewrite Nat.eqb_refl in P1, P2.
+    apply (IH y x y' S q P1 P2).
+  - rewrite (nth_set_other _ _ _ _ _ _ N NE). reflexivity.
+Qed.
+
+(* where the exchange exists the two pointers read each other's old value afterwards *)
+Theorem swap_reads_back : forall c dv f path r, ext_swap c dv f path = Some r ->
+  exists pf pc a b, jlocate c dv f = Some pf /\ jlocate c dv path = Some pc /\ jget_at dv pf = Some a /\ jget_at dv pc = Some b /\
+                    jget_at r pf = Some b /\ jget_at r pc = Some a.
+Proof.
+  intros c dv f path r H. unfold ext_swap in H.
+  destruct (jlocate c dv f) as [pf|] eqn:LF; [|discriminate]. destruct (jlocate c dv path) as [pc|] eqn:LP; [|discriminate].
+  destruct (np_prefix pf pc || np_prefix pc pf) eqn:NP; [discriminate|].
+  apply orb_false_iff in NP. destruct NP as [N1 N2].
+  destruct (jget_at dv pf) as [a|] eqn:GA; [|discriminate]. destruct (jget_at dv pc) as [b|] eqn:GB; [|discriminate].
+  destruct (jset_at dv pf b) as [d1|] eqn:S1; [|discriminate].
+  exists pf, pc, a, b. split; [reflexivity|]. split; [reflexivity|]. split; [exact GA|]. split; [exact GB|]. split.
+  - rewrite (jget_at_set_other pc d1 a r H pf N2 N1). apply (jget_at_set_same pf dv b d1 S1).
+  - apply (jget_at_set_same pc d1 a r H).
+Qed.
+
+(* ------------------------------------------------------------------ add_create: the documented meaning *)
+Lemma ext_create_fresh : forall x p, p <> [] -> ext_add_create lenient (JObj []) p x = create_spec lenient (JObj []) p x.
+Proof.
+  intros x. induction p as [|s r IH]; intro NE; [contradiction|].
+  destruct r as [|s2 r']; [reflexivity|].
+  change (ext_add_create lenient (JObj []) (s :: s2 :: r') x) with
+    (match ext_add_create lenient (JObj []) (s2 :: r') x with Some y' => Some (JObj ([] ++ [(s, y')])) | None => None end).
+  change (create_spec lenient (JObj []) (s :: s2 :: r') x) with
+    (match create_spec lenient (JObj []) (s2 :: r') x with Some y' => Some (JObj ([] ++ [(s, y')])) | None => None end).
+  rewrite IH by discriminate. reflexivity.
+Qed.
+
+Lemma lookup_none_pos : forall s ms, lookup s ms = None -> lookup_pos s ms = None.
+Proof.
+  intros s ms H. destruct (lookup_pos s ms) as [i|] eqn:L; [|reflexivity].
+  pose proof (lookup_pos_nth s ms i L) as E. rewrite H in E.
+  assert (Lt : (i < length (map snd ms))%nat).
+  { clear E H. revert i L. induction ms as [|[k v] r IH]; intros i L; [discriminate|].
+    cbn [lookup_pos] in L. destruct (bytes_eqb k s); [inversion L; simpl; lia|].
+    destruct (lookup_pos s r) as [j|]; [|discriminate]. inversion L; subst. simpl. specialize (IH j eq_refl). lia. }
+  symmetry in E. apply nth_error_None in E. lia.
+Qed.
+
+Theorem add_create_documented : forall p v x r, ext_add_create lenient v p x = Some r -> lib_add_create lenient v p x = Some r.
+Proof.
+  unfold lib_add_create. induction p as [|s r0 IH]; intros v x r H; [discriminate|].
+  destruct r0 as [|s2 r'].
+  - cbn [removelast jget]. exact H.
+  - rewrite removelast_cons2, jget_cons.
+    change (ext_add_create lenient v (s :: s2 :: r') x) with
+      (match v with
+       | JObj ms => match lookup s ms with
+                    | Some y => match ext_add_create lenient y (s2 :: r') x with Some y' => Some (JObj (set_member s y' ms)) | None => None end
+                    | None => match ext_add_create lenient (JObj []) (s2 :: r') x with Some y' => Some (JObj (ms ++ [(s, y')])) | None => None end
+                    end
+       | _ => None end) in H.
+    destruct v as [| | | | |l|ms]; try discriminate.
+    destruct (lookup s ms) as [y|] eqn:L.
+    + destruct (ext_add_create lenient y (s2 :: r') x) as [y'|] eqn:E; [|discriminate]. inversion H; subst r.
+      specialize (IH y x y' E).
+      destruct (jget lenient y (removelast (s2 :: r'))) as [z|] eqn:G.
+      * unfold s_add in *. rewrite jmod_cons2, L, IH. reflexivity.
+      * assert (L2 : exists i, lookup_pos s ms = Some i /\ nth_error (map snd ms) i = Some y).
+        { destruct (lookup_pos s ms) as [i|] eqn:LP.
+          - exists i. split; [reflexivity|]. transitivity (lookup s ms); [symmetry; apply lookup_pos_nth; exact LP | exact L].
+          - rewrite (lookup_pos_none s ms LP) in L. discriminate. }
+        destruct L2 as [i [LP N]].
+        assert (YO : exists ys, y = JObj ys).
+        { destruct r' as [|s3 r'']; [simpl in G; discriminate|].
+          change (ext_add_create lenient y (s2 :: s3 :: r'') x) with
+            (match y with JObj ms0 => match lookup s2 ms0 with
+                                      | Some y0 => match ext_add_create lenient y0 (s3 :: r'') x with Some y1 => Some (JObj (set_member s2 y1 ms0)) | None => None end
+                                      | None => match ext_add_create lenient (JObj []) (s3 :: r'') x with Some y1 => Some (JObj (ms0 ++ [(s2, y1)])) | None => None end
+                                      end
+                    | _ => None end) in E.
+          destruct y; try discriminate. eexists. reflexivity. }
+        destruct YO as [ys EY]. subst y.
+        change (create_spec lenient (JObj ms) (s :: s2 :: r') x) with
+          (match jstep lenient (JObj ms) s with
+           | Some i0 => match nth_error (jkids (JObj ms)) i0 with
+                        | Some (JObj ys0) => match create_spec lenient (JObj ys0) (s2 :: r') x with
+                                             | Some y1 => Some (jset_kid (JObj ms) i0 y1) | None => None end
+                        | _ => None end
+           | None => match create_spec lenient (JObj []) (s2 :: r') x with
+                     | Some y1 => Some (JObj (ms ++ [(s, y1)])) | None => None end
+           end).
+        cbn [jstep jkids]. rewrite LP, N, IH. cbn [jset_kid]. rewrite (set_member_at s y' ms i LP). reflexivity.
+    + destruct (ext_add_create lenient (JObj []) (s2 :: r') x) as [y'|] eqn:E; [|discriminate]. inversion H; subst r.
+      change (create_spec lenient (JObj ms) (s :: s2 :: r') x) with
+        (match jstep lenient (JObj ms) s with
+         | Some i0 => match nth_error (jkids (JObj ms)) i0 with
+                      | Some (JObj ys0) => match create_spec lenient (JObj ys0) (s2 :: r') x with
+                                           | Some y1 => Some (jset_kid (JObj ms) i0 y1) | None => None end
+                      | _ => None end
+         | None => match create_spec lenient (JObj []) (s2 :: r') x with
+                   | Some y1 => Some (JObj (ms ++ [(s, y1)])) | None => None end
+         end).
+      cbn [jstep]. rewrite (lookup_none_pos s ms L). rewrite <- ext_create_fresh by discriminate. rewrite E. reflexivity.
+Qed.
